@@ -1,9 +1,123 @@
 import Driver.Proto
+import ScrapliModel.Pipe
 namespace Driver.C16
-open Scrapli
+open Scrapli Scrapli.Pipe
 
-/-- line-protocol handler for property C16 (arguments after the leading `c16` token) -/
+/-! line protocol for C16
+
+`c16 run <kind> <ib> <events>`: kind ∈ system|standard|telnet, `ib` hex, events = comma separated
+tokens (`.` = none): `s<hex>` peer sends, `r<n>:<k>` client read of size n returning a prefix of
+length k (clamped), `w<hex>` client write, `x` peer exit, `c` close.
+answer: `<dom> <outcomes> <left> <out> <conserved> <outIsWritten>`; outcomes = comma separated
+`d<hex>:<e>` (e ∈ n|eof|closed|other) or `b` (blocks); `conserved` = the model's own
+`delivered ++ left = ib ++ sent` (the spec, evaluated on the model's run), `outIsWritten` = the bytes
+handed to the peer are the successful writes in order.
+
+`c16 wrap <kind> <n> <data> <err>`: the Read wrapper of that kind on one raw result.
+
+`c16 lock <force> <schedule>`: schedule = string of `r`/`c` moves from the blocked-read state;
+answer `<reader pc> <closer pc> <closed>`.
+-/
+
+def c16Kind : String → Option Kind
+  | "system" => some .system
+  | "standard" => some .standard
+  | "telnet" => some .telnet
+  | _ => none
+
+/-! megabyte payloads travel through this protocol: hex is decoded / encoded with loops over the
+string's bytes instead of the generic character-list helpers -/
+
+def c16Nib (c : UInt8) : Option Nat :=
+  if 48 ≤ c && c ≤ 57 then some (c.toNat - 48)
+  else if 97 ≤ c && c ≤ 102 then some (c.toNat - 87)
+  else none
+
+/-- decode `pairs` hex pairs of `a` starting at byte `lo`, last pair first, consing onto `acc` -/
+def c16UnhexGo (a : ByteArray) (lo : Nat) : Nat → Bytes → Option Bytes
+  | 0, acc => some acc
+  | i + 1, acc =>
+    match c16Nib (a.get! (lo + 2 * i)), c16Nib (a.get! (lo + 2 * i + 1)) with
+    | some x, some y => c16UnhexGo a lo i (UInt8.ofNat (x * 16 + y) :: acc)
+    | _, _ => none
+
+/-- hex field starting at byte `lo` of `s` (`-` = empty) -/
+def c16Unhex (s : String) (lo : Nat) : Option Bytes :=
+  let a := s.toUTF8
+  let len := a.size - lo
+  if len == 1 && a.get! lo == 45 then some []
+  else if len % 2 == 1 then none
+  else c16UnhexGo a lo (len / 2) []
+
+def c16HexChar (n : Nat) : Char := if n < 10 then Char.ofNat (48 + n) else Char.ofNat (87 + n)
+
+def c16Hex (b : Bytes) : String :=
+  if b.isEmpty then "-" else
+  b.foldl (fun acc x => (acc.push (c16HexChar (x.toNat / 16))).push (c16HexChar (x.toNat % 16))) ""
+
+def c16Ev (tok : String) : Option Ev :=
+  match tok.front with
+  | 's' => (c16Unhex tok 1).map Ev.send
+  | 'w' => (c16Unhex tok 1).map Ev.write
+  | 'x' => if tok == "x" then some .peerExit else none
+  | 'c' => if tok == "c" then some .close else none
+  | 'r' =>
+    match tok.splitOn ":" with
+    | [a, b] => do
+      let n ← (a.drop 1).toNat?
+      let k ← b.toNat?
+      pure (Ev.read n k)
+    | _ => none
+  | _ => none
+
+def c16Evs (s : String) : Option (List Ev) :=
+  if s == "." then some [] else (s.splitOn ",").mapM c16Ev
+
+def c16Err : Option RErr → String
+  | none => "n"
+  | some .eof => "eof"
+  | some .closed => "closed"
+  | some .other => "other"
+
+def c16Outcome : Outcome → String
+  | .block => "b"
+  | .ret d e => s!"d{c16Hex d}:{c16Err e}"
+
+def c16ReadsOk : List Ev → Bool
+  | [] => true
+  | .read n _ :: es => decide (1 ≤ n) && c16ReadsOk es
+  | _ :: es => c16ReadsOk es
+
+def c16Pc (r : RPc) : String :=
+  match r with | .idle => "idle" | .waitLock => "waitLock" | .inRead => "inRead" | .done => "done"
+def c16Cc (c : CPc) : String :=
+  match c with | .idle => "idle" | .waitLock => "waitLock" | .closing => "closing" | .done => "done"
+
 def handleC16 : List String → String
+  | ["run", kd, ib, evs] =>
+    match c16Kind kd, c16Unhex ib 0, c16Evs evs with
+    | some kd, some ib, some evs =>
+      let r := run kd (TState.init ib) evs
+      let dom := (decide (kd = .telnet) || ib.isEmpty) && c16ReadsOk evs
+      let outs := if r.2.isEmpty then "." else ",".intercalate (r.2.map c16Outcome)
+      let conserved := delivered r.2 ++ r.1.left == ib ++ sentFrom false evs
+      let outOk := r.1.out == writtenFrom false evs
+      s!"{b2s dom} {outs} {c16Hex r.1.left} {c16Hex r.1.out} {b2s conserved} {b2s outOk}"
+    | _, _, _ => "bad-op"
+  | ["wrap", kd, n, d, e] =>
+    -- the Read wrapper alone, on a raw result (data, error); answer `d<hex>:<e>`
+    let err : Option (Option RErr) :=
+      if e == "n" then some none else if e == "eof" then some (some .eof)
+      else if e == "other" then some (some .other) else if e == "closed" then some (some .closed) else none
+    match c16Kind kd, n.toNat?, c16Unhex d 0, err with
+    | some kd, some n, some d, some err =>
+      let r := if kd == Kind.telnet then telWrap n d err else sysWrap n d err
+      s!"d{c16Hex r.1}:{c16Err r.2}"
+    | _, _, _, _ => "bad-op"
+  | ["lock", force, sched] =>
+    let moves := sched.toList.filterMap fun c => if c == 'r' then some true else if c == 'c' then some false else none
+    let s := runSched (s2b force) blockedRead moves
+    s!"{c16Pc s.r} {c16Cc s.c} {b2s s.closed}"
   | _ => "bad-op"
 
 end Driver.C16
